@@ -112,6 +112,25 @@ def main():
                 print("HARNESS-ERROR %s: model does not reproduce: %s inputs=%s %s" % (
                     res.get("job"), res["cex"]["message"], json.dumps(inputs)[:500], r.get("error", "")))
 
+        # 4. concolic self-check: inputs taken from paths on which the property held are replayed on the unmodified real code
+        #    (fresh process, no proxies, no shims); the concrete run must hold as well
+        validated, mismatches = 0, 0
+        todo = []
+        for res in results:
+            if res["verdict"] in ("confirmed_all_paths", "no_counterexample_budget_exhausted"):
+                for inp in res.get("selfcheck_inputs", [])[:core.SELFCHECK_PER_JOB]:
+                    todo.append((res, inp))
+        todo = todo[: int(os.environ.get("VERIF_SELFCHECK_MAX", "24"))]
+        for k, (res, inp) in enumerate(todo):
+            r = core.replay_in_subprocess(modname, res["harness"], core.unjson(inp), tmpdir, tag="sc%d" % k)
+            if r.get("reproduced") is False and "error" not in r:
+                validated += 1
+                res.setdefault("stats", {})["traces_validated"] = res.get("stats", {}).get("traces_validated", 0) + 1
+            else:
+                mismatches += 1
+                print("SELF-CHECK note (%s): a path on which the property held symbolically does not replay cleanly: %s %s" % (
+                    res.get("job"), (r.get("detail") or "")[:200], (r.get("error") or "")[:200]))
+        print("self-check: %d sampled passing paths replayed on the real code, %d agree" % (len(todo), validated))
         wall = time.time() - t0
         if not a.no_evidence and not a.only:
             write_evidence(pid, a.tier, seed, mod, results, known_status, violations, harness_errors, wall)
